@@ -309,6 +309,9 @@ def iterative(prog: Program, rep) -> None:
                 if isinstance(z, ast.IfExp) and U(z.body) == "initial_sol()" and _atoms(z.test, True) == [("isnot", "initial_sol", "None")] \
                         and isinstance(z.orelse, ast.Constant) and z.orelse.value is None:
                     guard = [z]
+                if isinstance(z, ast.IfExp) and U(z.orelse) == "initial_sol()" and _atoms(z.test, False) == [("isnot", "initial_sol", "None")] \
+                        and isinstance(z.body, ast.Constant) and z.body.value is None:
+                    guard = [z]
         rep.check(ok and bool(guard), "initial-guess-honoured", sv.qualname, short(si.stmt), "a given initial guess (a thunk) is called and its value passed to the backend as x0", sv.loc(call))
         if cname == "GMRESSolver":
             early = [r for r in returns_of(sv) if "initial_sol" in U(r.value)]
